@@ -622,6 +622,53 @@ func runC17(c *eng.Ctx) {
 		})
 	}
 	coverage("Query", "innerQuery")
+	// ---- a built statement owns its lists: no parser buffer is recycled ---------------------------------------------------------------------
+	// (build() hands the parser's slices to the statement it returns; a parser that is pooled and keeps `buf[:0]` of such a slice
+	// makes the next parse overwrite the group-by / select list of a statement that is still being planned or marshalled)
+	c.Rule("PROV", "sql{no parser slice is re-sliced to length 0 for reuse}", func() {
+		n, fns := 0, 0
+		for _, fn := range p.FuncsWithPrefix("sql.") {
+			fns++
+			for _, b := range fn.Blocks {
+				for _, in := range b.Instrs {
+					sl, ok := in.(*ssa.Slice)
+					if !ok || sl.High == nil || sl.Max != nil {
+						continue
+					}
+					if k, isC := eng.ConstInt(sl.High); !isC || k != 0 {
+						continue
+					}
+					if _, isStr := sl.X.Type().Underlying().(*types.Basic); isStr {
+						continue
+					}
+					fromField := false
+					eng.WalkExpr(sl.X, func(x ssa.Value) bool {
+						if fa, ok := x.(*ssa.FieldAddr); ok && strings.HasPrefix(eng.FieldKeyOfAddr(fa), "sql.") {
+							fromField = true
+						}
+						return true
+					})
+					if !fromField {
+						continue
+					}
+					n++
+					c.Check(false, fmt.Sprintf("recycled-parser-slice@%s[%d]", p.FuncKey(fn), n), sl, fn, "no field of a statement parser is re-sliced to length 0 and filled again: the statement built from the previous contents still refers to that array", "re-slices "+p.Desc(sl.X))
+				}
+			}
+		}
+		if fns < 50 {
+			c.Undecided("expected >= 50 functions in package sql, found %d", fns)
+		}
+		c.Check(true, "scanned", nil, nil, fmt.Sprintf("%d functions of package sql scanned, %d recycled slice(s)", fns, n), "")
+	})
+
+	// ---- the receiving side adds no refusal of its own: what the parser accepted and Marshal wrote, UnmarshalJSON reads ----------------
+	// (a bound on nesting / length / count that only the receiver enforces makes the leaf reject statements the root planned)
+	c.Rule("ERRFLOW", "sql/stmt.Query.UnmarshalJSON{fails only when a decoder fails}", func() {
+		errorsOnlyFrom(c, "sql/stmt.Query.UnmarshalJSON",
+			eng.Any(eng.AnyCallTo("github.com/lindb/common/pkg/encoding.JSONUnmarshal"), eng.CallTo("sql/stmt.Unmarshal"), eng.CallTo("encoding/json.Unmarshal")),
+			"JSONUnmarshal / stmt.Unmarshal")
+	})
 	if p.Func("sql/stmt.MetricMetadata.MarshalJSON") != nil {
 		coverage("MetricMetadata", "innerMetadata")
 	}
